@@ -74,7 +74,7 @@ class PendingNamedExpr(PendingExprGeneric[NamedExpr]):
                     ],
                     ctx=Load(),
                 ),
-                slice=Constant(value=-1),
+                slice=UnaryOp(op=USub(), operand=Constant(value=1)),
                 ctx=Load(),
             )
 
